@@ -81,5 +81,14 @@ class ToNumpyModel(Contract):
         return a
 
 
+class DetermineBackendNameModel(Contract):
+    qual = "utils:determine_backend_name"
+    doc = "name of the array namespace ('numpy', 'torch', 'jax', ...)"
+
+    def model(self, I, info, bound, args, kwargs, node):
+        xp = kwargs.get("xp", args[1] if len(args) > 1 else NONE)
+        return Sym(uf("backend_name", Misc, Misc)(xp.e) if isinstance(xp, Sym) else z3.Const(fresh("backend"), Misc), "str")
+
+
 ALL = [LogWeightsModel, UnnormalizedLogWeightsModel, EffectiveSampleSizeModel, LogEvidenceRatioModel,
        LogEvidenceRatioVarianceModel, LogsumexpModel]
